@@ -64,8 +64,8 @@ where
             "entropy" => e_empty(v.entropy()).map(sc),
             "weighted_mean" | "weighted_sum" | "weighted_var" | "weighted_std" | "kl_divergence"
             | "cross_entropy" => {
-                let b: Parent<T> = Parent::parse(t);
-                let w = b.view();
+                let b: Second<T> = Second::parse(t);
+                let w = b.view(&a);
                 // the weighted routines take `&Self`: both operands are dynamic-dimensional views
                 match routine {
                     "weighted_mean" => e_multi(v.weighted_mean(&w)).map(sc),
@@ -84,8 +84,8 @@ where
                 }
             }
             "weighted_mean_axis" | "weighted_sum_axis" | "weighted_var_axis" | "weighted_std_axis" => {
-                let b: Parent<T> = Parent::parse(t);
-                let w = b.view().into_dimensionality::<Ix1>().unwrap();
+                let b: Second<T> = Second::parse(t);
+                let w = b.view(&a).into_dimensionality::<Ix1>().unwrap();
                 t.bar();
                 let axis = t.usize();
                 match routine {
@@ -133,8 +133,8 @@ where
         match routine {
             "mean" => e_empty(SummaryStatisticsExt::mean(&v)).map(sc),
             "weighted_mean" | "weighted_sum" => {
-                let b: Parent<T> = Parent::parse(t);
-                let w = b.view();
+                let b: Second<T> = Second::parse(t);
+                let w = b.view(&a);
                 if routine == "weighted_mean" {
                     e_multi(v.weighted_mean(&w)).map(sc)
                 } else {
@@ -142,8 +142,8 @@ where
                 }
             }
             "weighted_mean_axis" | "weighted_sum_axis" => {
-                let b: Parent<T> = Parent::parse(t);
-                let w = b.view().into_dimensionality::<Ix1>().unwrap();
+                let b: Second<T> = Second::parse(t);
+                let w = b.view(&a).into_dimensionality::<Ix1>().unwrap();
                 t.bar();
                 let axis = t.usize();
                 if routine == "weighted_mean_axis" {
@@ -165,13 +165,13 @@ where
 {
     let a: Parent<T> = Parent::parse(t);
     t.bar();
-    let b: Parent<T> = Parent::parse(t);
+    let b: Second<T> = Second::parse(t);
     t.bar();
     let own = t.usize();
     let maxv = t.try_next().map(|x| T::parse(x));
     let r = guarded(|| -> Result<String, String> {
         let va = a.view();
-        let vb = b.view();
+        let vb = b.view(&a);
         macro_rules! go {
             ($x:expr, $y:expr) => {
                 match routine {
